@@ -8,6 +8,7 @@ A replay file with "generic": true is decided here, by the same oracles the chec
   cpplines  the same, additionally the division of the output into lines
   inc       include tree + options, marker sequence must equal gcc/clang                   (checks.c10.inc_replay)
   robust    arbitrary bytes: chibicc must produce output or a located diagnostic           (checks.c13 judge)
+  script    a self-contained demo.sh <tree> with companion files (driver behaviour)
   diagpos   an invalid input; the first diagnostic must name r.c and one of the given lines
 """
 import os, re
@@ -78,8 +79,27 @@ def cpplines(tree, rep, wd):
     return False, 'line structure agrees: %r' % outs['gcc'][:6]
 
 
+def script(tree, rep, wd):
+    """a demonstration script (bash, `demo.sh <tree>`) with its companion files; it exits 0 when the property holds for its input
+    on that tree and non-zero when it is violated.  Used where the observation is a driver behaviour (exit status, files written)
+    rather than program output."""
+    for name, content in rep.get('files', {}).items():
+        q = os.path.join(wd, name)
+        os.makedirs(os.path.dirname(q), exist_ok=True)
+        open(q, 'wb').write(content.encode('latin1'))
+    sp = os.path.join(wd, 'demo.sh')
+    open(sp, 'w').write(rep['script'])
+    r = core.run(['bash', sp, tree.dir], cwd=wd, timeout=rep.get('timeout', 120), as_mb=0)
+    if r.timeout:
+        return True, 'demonstration script timed out'
+    tail = (r.out + r.err).strip().split('\n')[-3:]
+    return (r.rc != 0), 'demo.sh exit %s: %s' % (r.rc, ' | '.join(tail)[:400])
+
+
 def dispatch(tree, rep, wd):
     k = rep['kind']
+    if k == 'script':
+        return script(tree, rep, wd)
     if k == 'diffprog':
         return diffprog.replay(tree, rep, wd, run_timeout=20)
     if k == 'xlink':
